@@ -97,9 +97,9 @@ def run_mut_jobs(chk, jobs):
                     'msg = getattr(mw, %r)(hszinc, %r, %r)\n'
                     'if msg is not None:\n'
                     '    VIOLATED(msg)\n'
-                    'HOLDS()\n') % (common.VERIF, 'replay_corpus' if j.get('corpus') else ('replay_canary' if j.get('canary') else 'replay_forms'), j, fname)
+                    'HOLDS()\n') % (common.VERIF, 'replay_corpus' if j.get('corpus') else ('replay_canary' if j.get('canary') else ('replay_zforms' if j.get('zforms') else 'replay_forms')), j, fname)
             tag = '%s-form-%s' % (j['prop'], fname)
-            verdict = chk.candidate(tag, body, '%s: JSON input form %s: %s' % (j['prop'], fname, msg[:300]), model=fname)
+            verdict = chk.candidate(tag, body, '%s: input form %s: %s' % (j['prop'], fname, msg[:300]), model=fname)
             chk.query(tag, 'counterexample:' + verdict, wall, model=fname, message=msg[:200])
             chk.samples.append({'form': fname, 'what': msg[:200], 'replay': verdict})
         for c in res['cex']:
